@@ -29,6 +29,46 @@ Theorem C01_static_init : forall mh, ValInv (init mh).
 Proof. exact ValInv_init. Qed.
 Print Assumptions C01_static_init.
 
+(** Every other operation of the fragment preserves the quiescent value invariant, given that
+    the structural invariant [wfb] holds before and after it (C05: EngineInvProofs proves that
+    part for clean histories; here it is a hypothesis).  [static_op]: no binds, no parallel pass,
+    passes without a plan. *)
+Theorem C01_static_step_preserves_ValInv : forall s o s',
+  wfb s = true -> ValInv s -> static_op o = true -> op_ok s o = true ->
+  step s o = Ok (s', None) -> wfb s' = true -> ValInv s'.
+Proof. exact step_ValInv. Qed.
+Print Assumptions C01_static_step_preserves_ValInv.
+
+(** Histories.  [static_run s os s']: every operation of [os] is in the fragment, well-formed,
+    returns no error (no crash, no rejection for a cycle / the height limit, no cancelled pass)
+    and leaves [wfb] true.  Along such a history both invariants hold ... *)
+Theorem C01_static_run_invariants : forall s os s',
+  wfb s = true -> ValInv s -> static_run s os s' -> wfb s' = true /\ ValInv s'.
+Proof. exact static_run_inv. Qed.
+Print Assumptions C01_static_run_invariants.
+
+(** ... and after EVERY pass of the history every registered node is locally consistent and
+    every observer reads the from-scratch value ([Spec.eval]) of the node it observes. *)
+Theorem C01_static : forall s0 os1 o os2 s',
+  wfb s0 = true -> ValInv s0 -> static_run s0 (os1 ++ o :: os2) s' -> is_pass o = true ->
+  exists s1 s2, static_run s0 os1 s1 /\ step s1 o = Ok (s2, None) /\
+                consistent s2 = true /\ observers_agree s2 = true /\ wfb s2 = true /\ ValInv s2.
+Proof. exact static_history_consistent. Qed.
+Print Assumptions C01_static.
+
+(** the boolean form of [static_run] is sound *)
+Theorem C01_static_run_b_sound : forall os s s', static_run_b s os = Some s' -> static_run s os s'.
+Proof. exact static_run_b_sound. Qed.
+Print Assumptions C01_static_run_b_sound.
+
+(** Non-vacuity of the history theorem: [ex_history] = [ex_ops] followed by a pass, from [init 64]. *)
+Example C01_static_ex_history :
+  wfb (init 64) = true /\ ValInv (init 64) /\ (exists s', static_run (init 64) (ex_ops ++ Stabilize [] :: []) s') /\
+  is_pass (Stabilize []) = true.
+Proof.
+  split; [exact (proj1 init_hyps)|]. split; [exact (proj2 init_hyps)|]. split; [exact ex_history_runs|reflexivity].
+Qed.
+
 (** Non-vacuity (the history of PassProofs.ex_ops: diamond, duplicated input, cutoff, Always). *)
 Example C01_static_ex :
   wfb ex_pre = true /\ ValInv ex_pre /\ stabilize [] false ex_pre = Ok (ex_post, None) /\
